@@ -44,9 +44,9 @@ m('c07_sync_before_state', 'C07', 'job.py',
   "                # set evaluated\n                individual.state = individual.State.EVALUATED\n                # info\n"
   "                individual.features[\"finish_time\"] = time.time()\n")
 m('c07_shared_scratch', 'C07', 'job.py',
-  "                costs = self.problem.surrogate.evaluate(individual)\n                individual.costs = costs\n",
+  "                costs = self.problem.surrogate.evaluate(individual)\n                individual.costs = list(costs)  # a numpy array would break later list operations (append, vector + costs)\n",
   "                self._cur = individual\n                costs = self.problem.surrogate.evaluate(individual)\n"
-  "                self._cur.costs = costs\n")
+  "                self._cur.costs = list(costs)\n")
 m('c07_no_sharedmem', 'C07', 'operators.py', "verbose=1, require='sharedmem')(", "verbose=1)(")
 
 # ---------------------------------------------------------------- C10
@@ -68,9 +68,9 @@ m('c10_costs_signed_as_costs', 'C10', 'individual.py', "        individual.costs
 # ---------------------------------------------------------------- C11
 m('c11_journal_off', 'C11', 'datastore.py', "c.execute('PRAGMA journal_mode = ON')", "c.execute('PRAGMA journal_mode = OFF')")
 m('c11_early_sync_before_costs', 'C11', 'job.py',
-  "                costs = self.problem.surrogate.evaluate(individual)\n                individual.costs = costs\n",
+  "                costs = self.problem.surrogate.evaluate(individual)\n                individual.costs = list(costs)  # a numpy array would break later list operations (append, vector + costs)\n",
   "                costs = self.problem.surrogate.evaluate(individual)\n                individual.state = individual.State.EVALUATED\n"
-  "                self.problem.data_store.sync_individual(individual)\n                individual.costs = costs\n")
+  "                self.problem.data_store.sync_individual(individual)\n                individual.costs = list(costs)\n")
 m('c11_batched_commit', 'C11', 'datastore.py',
   "            conn = self.conn()\n            c = conn.cursor()\n\n            # data\n            try:\n"
   "                c.execute(self.sql_individuals_upsert, [individual.id, json.dumps(individual.to_dict())])\n"
@@ -239,8 +239,29 @@ m('c20_hash_includes_id', 'C20', 'individual.py', "        return hash(tuple(sel
 
 # ---------------------------------------------------------------- C07, statement-level races (need a pre-emption between two lines)
 m('c07_scratch_between_lines', 'C07', 'job.py',
-  "                costs = self.problem.surrogate.evaluate(individual)\n                individual.costs = costs\n",
-  "                self._scratch = self.problem.surrogate.evaluate(individual)\n                individual.costs = self._scratch\n")
+  "                costs = self.problem.surrogate.evaluate(individual)\n                individual.costs = list(costs)  # a numpy array would break later list operations (append, vector + costs)\n",
+  "                self._scratch = self.problem.surrogate.evaluate(individual)\n                individual.costs = list(self._scratch)\n")
 m('c07_shared_dict_buffer', 'C07', 'datastore.py',
   "                c.execute(self.sql_individuals_upsert, [individual.id, json.dumps(individual.to_dict())])\n                conn.commit()\n            except sqlite3.OperationalError as e:",
   "                self._row = [individual.id, json.dumps(individual.to_dict())]\n                c.execute(self.sql_individuals_upsert, self._row)\n                conn.commit()\n            except sqlite3.OperationalError as e:")
+
+# ---------------------------------------------------------------- regressions of the six repaired defects (a fixed entry of
+# known_findings.json suppresses nothing: the violation must be reported again if the defect ever returns)
+m('f1_regression_eq_last_coordinate_only', 'C20', 'individual.py',
+  "            d = abs(self.vector[i] - other.vector[i])\n            diff = d if i == 0 else max(diff, d)",
+  "            diff = abs(self.vector[i] - other.vector[i])")
+m('f3_regression_np_infty', 'C17', 'quality_indicator.py', "        eps_j = np.inf\n", "        eps_j = np.infty\n")
+m('f4_regression_uniform_last_level', 'C08', 'operators.py',
+  "                if i == self.number - 1:\n                    # lb + (n - 1) * ((ub - lb) / (n - 1)) is not ub in floating point when |lb| >> |ub|\n"
+  "                    vectors[-1].append(parameter['bounds'][1])\n                else:\n"
+  "                    vectors[-1].append(parameter['bounds'][0] + i * delta)\n",
+  "                vectors[-1].append(parameter['bounds'][0] + i * delta)\n")
+m('f5_regression_psoga_shared_features', 'C07', 'algorithm_swarm.py',
+  "            offspring1.features = copy(first_selected.features)\n            offspring2.features = copy(second_selected.features)\n",
+  "            offspring1.features = first_selected.features\n            offspring2.features = second_selected.features\n")
+m('f6_regression_costs_not_a_list_c14', 'C14', 'job.py',
+  "                individual.costs = list(costs)  # a numpy array would break later list operations (append, vector + costs)\n",
+  "                individual.costs = costs\n")
+m('f6_regression_costs_not_a_list_c17', 'C17', 'job.py',
+  "                individual.costs = list(costs)  # a numpy array would break later list operations (append, vector + costs)\n",
+  "                individual.costs = costs\n")
